@@ -78,12 +78,13 @@ var trList = []trFunc{
 	{"CodeReadAgg", "imperatives", "readAddAgg", "readAddAgg", false, true, []string{"param:s"}, nil, []string{"Crng.CodeSpecAgg.T1", "Crng.CodeSpecAgg.T2"}, "(s.toks.length + 2)"},
 	{"CodeReadSmall", "imperatives", "readAddBlack", "readAddBlack", false, true, []string{"param:s"}, nil, nil, ""},
 	{"CodeReadSmall", "imperatives", "readAddRewriter", "readAddRewriter", false, true, []string{"param:s"}, nil, nil, ""},
+	{"CodeReadSmall", "imperatives", "readRouteOpts", "readRouteOpts", true, false, []string{"param:s"}, nil, []string{"Crng.CodeSpecAgg.T3"}, "(s.toks.length + 2)"},
 	{"CodeReadDest", "imperatives", "readDestination", "readDestination", true, true, []string{"param:s"}, nil, nil, "(s.toks.length + 2)"},
 }
 
 // generated modules that import another generated module (a translated function calling a translated method)
 // hand-written modules (state types of named loops) a generated module imports
-var trSpecImports = map[string][]string{"CodeReadAgg": {"Crng.CodeSpecAgg"}}
+var trSpecImports = map[string][]string{"CodeReadAgg": {"Crng.CodeSpecAgg"}, "CodeReadSmall": {"Crng.CodeSpecAgg"}}
 
 var trImports = map[string][]string{"CodeAgg": {"CodeMatcher"}, "CodeFilters": {"CodeMatcher"}}
 
@@ -164,6 +165,7 @@ type trCtx struct {
 	declared map[string]bool
 	nres     int
 	njoin    int
+	namedRes []string
 	preDefs  *[]string
 	nloop    *int
 	rtFull   string
@@ -666,7 +668,14 @@ func (c *trCtx) stmts(list []ast.Stmt, ind string) string {
 		return c.stmts(append(append([]ast.Stmt{}, x.List...), rest...), ind)
 	case *ast.ReturnStmt:
 		if len(x.Results) == 0 && c.nres > 0 {
-			fail("bare return in a function with results")
+			if len(c.namedRes) != c.nres {
+				fail("bare return in a function with unnamed results")
+			}
+			var ns []string
+			for _, n := range c.namedRes {
+				ns = append(ns, lid(n))
+			}
+			return c.ret(tuple(ns))
 		}
 		if len(x.Results) == 1 && c.nres > 1 {
 			// `return f(...)` where f yields all the results
@@ -1078,6 +1087,23 @@ func (c *trCtx) forStmt(x *ast.ForStmt, rest []ast.Stmt, ind string) string {
 	if x.Post != nil {
 		assignedIn([]ast.Stmt{x.Post}, as)
 	}
+	// a bare `return` reads the named results: they travel with the loop state
+	if len(c.namedRes) > 0 {
+		bare := false
+		for _, st := range bodyList {
+			ast.Inspect(st, func(n ast.Node) bool {
+				if r, ok := n.(*ast.ReturnStmt); ok && len(r.Results) == 0 {
+					bare = true
+				}
+				return true
+			})
+		}
+		if bare {
+			for _, n := range c.namedRes {
+				as[n] = true
+			}
+		}
+	}
 	// objects advanced by pop methods are assigned too
 	for _, st := range append(append([]ast.Stmt{}, bodyList...), x.Post) {
 		if st == nil {
@@ -1426,6 +1452,23 @@ func translateFunc(f trFunc, fd *ast.FuncDecl, pkgFns map[string]string) string 
 			}
 		}
 	}
+	// named results are variables initialised to their zero values; a bare `return` yields their current values
+	var namedRes []string
+	namedInit := ""
+	if fd.Type.Results != nil {
+		for _, r := range fd.Type.Results.List {
+			for _, n := range r.Names {
+				if n.Name == "_" {
+					continue
+				}
+				lt := leanTypes[src(r.Type)]
+				namedRes = append(namedRes, n.Name)
+				namedInit += "let " + lid(n.Name) + " : " + lt + " := default\n  "
+				c.declared[n.Name] = true
+			}
+		}
+	}
+	c.namedRes = namedRes
 	rt := "Unit"
 	c.nres = len(rts)
 	if len(rts) > 0 {
@@ -1457,7 +1500,11 @@ func translateFunc(f trFunc, fd *ast.FuncDecl, pkgFns map[string]string) string 
 		c.ret = func(s string) string { return c.retFull(c.full(s)) }
 		c.fall = wrap(tuple(stateNames))
 		if !noRes {
-			c.fall = wrap("(default, " + strings.Join(stateNames, ", ") + ")")
+			var ds []string
+			for range rts {
+				ds = append(ds, "default")
+			}
+			c.fall = wrap("(" + strings.Join(ds, ", ") + ", " + strings.Join(stateNames, ", ") + ")")
 		}
 	} else if f.pure {
 		c.full = func(s string) string { return s }
@@ -1509,5 +1556,8 @@ func translateFunc(f trFunc, fd *ast.FuncDecl, pkgFns map[string]string) string 
 	if strings.Contains(name, ".") {
 		name = "_root_.Crng.Code." + name
 	}
-	return strings.Join(pre, "\n") + "def " + name + " " + strings.Join(params, " ") + " : " + rt + " :=\n  " + body + "\n"
+	if f.fuel == "guards" {
+		namedInit = ""
+	}
+	return strings.Join(pre, "\n") + "def " + name + " " + strings.Join(params, " ") + " : " + rt + " :=\n  " + namedInit + body + "\n"
 }
